@@ -546,7 +546,16 @@ pub fn gen(r: &mut Rng, i: usize) -> Vec<Vec<u128>> {
                 let k = r.below(ports.len() as u64) as usize;
                 let p = ports[k].clone();
                 let idx = p.canon - BASE;
-                match r.below(12) {
+                let arms = if r.chance(1, 4) { 13 } else { 12 };
+                match r.below(arms) {
+                    // an empty port batch for a connected port (costs no credits: must be refused)
+                    12 if !p.peer_tx_finished => {
+                        if ver >= 3 {
+                            push_op(&mut v, 20, &[0, 8, p.canon, 1, 1, 0, 1, 0, 0])
+                        } else {
+                            push_op(&mut v, 20, &[0, 8, p.canon, 1, 1, 0, 0, 0])
+                        }
+                    }
                     0 if p.tx_alive && !p.peer_rx_closed => push_op(&mut v, 8, &[idx, r.range(0, ck.min(16) as u64) as u128]),
                     1 if !p.peer_tx_finished => {
                         let n = r.range(0, ck.min(bu) as u64) as u128;
